@@ -23,6 +23,8 @@ void splinetable<Alloc>::fit(const ::ndsparse& data,
 	              "DoubleContCont must be a container of DoubleCont values");
 	
 	//Sanity checking
+	if(data.ndim==0 || data.rows==0)
+		throw std::logic_error("Cannot fit to empty data");
 	if(data.rows!=weights.size())
 		throw std::logic_error("Number of weights ("
 		                       +std::to_string(weights.size())
@@ -58,6 +60,21 @@ void splinetable<Alloc>::fit(const ::ndsparse& data,
 			                       +std::to_string(i)+
 			                       " is not in sorted order");
 	}
+	for(uint32_t i=0; i<data.ndim; i++){
+		if(coords[i].size()<data.ranges[i])
+			throw std::logic_error("Number of coordinates ("
+			                       +std::to_string(coords[i].size())
+			                       +") in dimension "+std::to_string(i)
+			                       +" is smaller than the range of coordinate indices ("
+			                       +std::to_string(data.ranges[i])+")");
+		if(knots[i].size()<2*(uint64_t)splineOrder[i]+2)
+			throw std::logic_error("Number of knots ("
+			                       +std::to_string(knots[i].size())
+			                       +") in dimension "+std::to_string(i)
+			                       +" is too small for spline order "
+			                       +std::to_string(splineOrder[i])
+			                       +" (at least 2*order+2 are required)");
+	}
 	if(smoothing.size()!=data.ndim && smoothing.size()!=1)
 		throw std::logic_error("Number of smoothing strengths specified ("
 		                       +std::to_string(smoothing.size())
@@ -68,6 +85,14 @@ void splinetable<Alloc>::fit(const ::ndsparse& data,
 		                       +std::to_string(penaltyOrder.size())
 		                       +") should be 1 or the number of spline dimensions ("
 		                       +std::to_string(data.ndim)+")");
+	for(uint32_t i=0; i<data.ndim; i++){
+		uint32_t porder=(penaltyOrder.size()>1?penaltyOrder[i]:penaltyOrder[0]);
+		if(porder>splineOrder[i])
+			throw std::logic_error("Penalty order ("+std::to_string(porder)
+			                       +") in dimension "+std::to_string(i)
+			                       +" is larger than the spline order ("
+			                       +std::to_string(splineOrder[i])+")");
+	}
 	if(monodim!=no_monodim && monodim>=data.ndim)
 		throw std::logic_error("Requested monotonic dimension ("
 		                       +std::to_string(monodim)
